@@ -577,8 +577,8 @@ class PlanJoinTablesQuery:
         row_dict = None
 
         predict_target = item.predictor_info.get('to_predict')
-        if isinstance(predict_target, list) and len(predict_target) > 0:
-            predict_target = predict_target[0]
+        if isinstance(predict_target, list):
+            predict_target = predict_target[0] if len(predict_target) > 0 else None
         if predict_target is not None:
             predict_target = predict_target.lower()
 
